@@ -174,6 +174,11 @@ def scope(model, family: str, schema_id: str, size: int, **over) -> dict:
             "marksets": _ms(model, [], [LINK]),  # LINK is the first mark gen_steps.schema_marks offers
             "max_children": 4,
         }
+    elif family == "pcode":  # neighbouring textblocks one of which forbids all marks
+        s = {"types": ["doc", "paragraph", "code_block", "text"], "texts": ["a"], "max_children": 3}
+    elif family == "iso_attr":
+        s = {"types": ["doc", "paragraph", "iso", "text"], "texts": ["a"], "attrs": {"iso": [{"id": 1}, {"id": 2}]},
+             "max_children": 3}
     elif family == "attrs_sub":  # attribute values that are key-subsets / prefixes of one another
         s = {
             "types": ["doc", "para", "widget", "text"],
@@ -256,7 +261,7 @@ def scope(model, family: str, schema_id: str, size: int, **over) -> dict:
 
 def families_for(schema_id: str) -> list[str]:
     return {
-        "basic": ["blocks", "blocks2", "long", "marks3", "inline", "inline_s", "astral", "links"],
+        "basic": ["blocks", "blocks2", "long", "marks3", "pcode", "inline", "inline_s", "astral", "links"],
         "list": ["blocks", "blocks2", "long", "marks3", "inline", "inline_s", "lists", "lists_q", "astral"],
         "strict_hb": ["strict"],
         "title": ["title"],
@@ -267,6 +272,7 @@ def families_for(schema_id: str) -> list[str]:
         "grid": ["table"],
         "hp": ["hp"],
         "iso_li": ["lists", "lists_q"],
+        "iso_attr": ["iso_attr"],
         "footnote": ["blocks"],
         "chips": ["chips"],
         **{f"pair{k}{t}": ["pair"] for k in "PS" for t in "12"},
